@@ -11,6 +11,7 @@
 From Coq Require Import List String Arith Bool.
 From Gluon Require Import Gen.FactsLocks Model.LockOrder Model.Teardown Proofs.ConcProofs.
 From Gluon Require Import Gen.FactsServe Model.ServerStop Proofs.ServerStopProofs.
+From Gluon Require Import Gen.FactsQueue Model.QueueClose Proofs.QueueCloseProofs.
 Import ListNotations.
 
 (* Generic, for all numbers of threads and all lock sets: if whatever a thread waits for ranks strictly above everything
@@ -121,6 +122,39 @@ Theorem C19_without_conn_close_refuted :
 Proof. exact conn_close_needed_lemma. Qed.
 Print Assumptions C19_without_conn_close_refuted.
 
+(* ---- the close protocol of async.QueuedChannel (Model/QueueClose.v): consumer in pop, Close, concurrent Enqueue ----
+   `queue_close_locked` is extracted from async/queued_channel.go on every run (Gen/FactsQueue.v): Close sets the flag and
+   then calls Broadcast while holding cond.L, Enqueue broadcasts under the lock, pop waits under it inside its loop. *)
+Theorem C19_queue_close_is_locked : queue_close_locked = true.
+Proof. exact fact_queue_close_locked. Qed.
+Print Assumptions C19_queue_close_is_locked.
+
+(* no lost wake-up, for every number of queued items and of concurrent Enqueues and every interleaving: once Close has
+   returned the consumer is neither asleep in cond.Wait nor about to go to sleep *)
+Theorem C19_queue_no_lost_wakeup : forall i b s, qreachable queue_close_locked i b s -> close_returned s = true ->
+  cons s <> CParked /\ cons s <> CWaitDecided.
+Proof. exact no_lost_wakeup_src. Qed.
+Print Assumptions C19_queue_no_lost_wakeup.
+
+(* after Close every consumer eventually leaves pop: it always has a next step ... *)
+Theorem C19_queue_consumer_progress : forall i b s, qreachable queue_close_locked i b s -> close_returned s = true ->
+  consumer_left s = false -> exists s', qstep queue_close_locked s QCons = Some s'.
+Proof. exact consumer_progress_src. Qed.
+Print Assumptions C19_queue_consumer_progress.
+
+(* ... and every step that can still happen decreases qmeasure (so it has left after at most that many steps) *)
+Theorem C19_queue_consumer_terminates : forall i b s l s', qreachable queue_close_locked i b s -> close_returned s = true ->
+  qstep queue_close_locked s l = Some s' -> qmeasure s' < qmeasure s /\ close_returned s' = true.
+Proof. exact consumer_terminates_src. Qed.
+Print Assumptions C19_queue_consumer_terminates.
+
+(* with the Broadcast outside the lock there is a schedule that loses the wake-up: Close has returned, the consumer sleeps
+   for ever (consumer locks and finds nothing; Close sets the flag and broadcasts to nobody; consumer goes to sleep) *)
+Theorem C19_queue_unlocked_broadcast_refuted :
+  exists s, qreachable false 0 0 s /\ close_returned s = true /\ cons s = CParked /\ stuck false s.
+Proof. exact unlocked_broadcast_refuted_lemma. Qed.
+Print Assumptions C19_queue_unlocked_broadcast_refuted.
+
 (* non-vacuity: three sessions; one logs out, the closer runs while the others are active, everything ends *)
 Example C19_example_run :
   exists s, run (init 3)
@@ -140,4 +174,11 @@ Example C19_example_server_close :
   exists s, srun close_closes_accepted_conns (sinit [Stateless; Stateless; Stateful; Stateful; Stateful])
               [SCloser; SCloser; SEnd 0; SCloser; SEnd 3; SEnd 2; SEnd 4; SCloser; SEnd 1] = Some s
   /\ returned s = true /\ none_left s = true.
+Proof. eexists. vm_compute. repeat split. Qed.
+
+(* non-vacuity for the queue model: one item queued, one Enqueue racing, the consumer sleeps in between, Close wakes it *)
+Example C19_example_queue :
+  exists s, qrun queue_close_locked (qinit 1 1)
+              [QCons; QCons; QCons; QCons; QCons; QCons; QEnq; QCons; QCloser; QCons; QCloser; QCons; QCloser; QCloser; QCons; QCons] = Some s
+  /\ close_returned s = true /\ consumer_left s = true.
 Proof. eexists. vm_compute. repeat split. Qed.
